@@ -2452,6 +2452,8 @@ class Signature(object):
             txid = txid.hex()
         if len(txid) > 64:
             txid = double_sha256(bytes.fromhex(txid), as_hex=True)
+        # The deterministic nonce is derived from this text: one spelling per digest
+        txid = txid.lower()
         if not isinstance(private, (Key, HDKey)):
             private = HDKey(private)
         pub_key = private.public()
